@@ -67,7 +67,7 @@ def gen_cases(tier, seed):
 
 
 def _configs(nt, around):
-    """(loss order, shared mode, task mode, aggregator, chunk, dtype)"""
+    """(loss order, shared mode, task mode, aggregator, chunk, dtype[, container kind of the parameter arguments])"""
     cfgs = []
     ident = tuple(range(nt))
     for perm in itertools.permutations(range(nt)):
@@ -83,6 +83,9 @@ def _configs(nt, around):
     if nt >= 3:
         cfgs.append((ident, "all", "own", "krum", 2, "float64"))
     cfgs.append((ident[::-1], "all", "own", "const", None, "float32"))
+    # the parameter arguments are documented as Iterable[Tensor]: generators (module.parameters()) and tuples, bare feature tensor
+    cfgs.append((ident, "all", "own", "const", None, "float64", "gen"))
+    cfgs.append((ident[::-1], "deps", "own-rev", "const", 1, "float64", "tuple"))
     return cfgs
 
 
@@ -119,7 +122,9 @@ def run_case(case):
     maxima = {}
     fwd_ok = False
     nontrivial = 0
-    for ci, (perm, smode, tmode, aggname, chunk, dtype) in enumerate(_configs(nt, around)):
+    for ci, cfg_ in enumerate(_configs(nt, around)):
+        perm, smode, tmode, aggname, chunk, dtype = cfg_[:6]
+        cont = cfg_[6] if len(cfg_) > 6 else "list"
         B = M.build_torch(desc, seed, dtype)
         vals = B["vals"]
         if not fwd_ok:
@@ -162,10 +167,19 @@ def run_case(case):
                 p_.grad = torch.full_like(p_, 0.5 + 0.25 * k)
                 pre[key] = p_.grad.detach().clone()
         agg = RecordingAggregator(_make_agg(aggname, nt, dtype))
-        cfg = f"perm={perm} shared={smode} tasks={tmode} agg={aggname} chunk={chunk} {dtype}"
+        feats_arg = B["feats"]
+        if cont == "gen":
+            shared = None if shared is None else (p_ for p_ in shared)
+            tparams = None if tparams is None else [(p_ for p_ in tp_) for tp_ in tparams]
+            losses = tuple(losses)
+        elif cont == "tuple":
+            shared = None if shared is None else tuple(shared)
+            tparams = None if tparams is None else tuple(tuple(tp_) for tp_ in tparams)
+            feats_arg = B["feats"][0] if len(B["feats"]) == 1 else tuple(B["feats"])
+        cfg = f"perm={perm} shared={smode} tasks={tmode} agg={aggname} chunk={chunk} {dtype} containers={cont}"
         where = f"{P.prog_str(desc['trunk'])} feats={desc['feats']} heads={[(h['tpl'], h['f']) for h in desc['heads']]} | {cfg}"
         try:
-            mtl_backward(losses=losses, features=B["feats"], aggregator=agg, tasks_params=tparams, shared_params=shared,
+            mtl_backward(losses=losses, features=feats_arg, aggregator=agg, tasks_params=tparams, shared_params=shared,
                          parallel_chunk_size=chunk)
         except Exception as e:
             viol.append(dict(sig=f"exception:{type(e).__name__}", cls=f"exception:{type(e).__name__}:{smode}:{tmode}",
@@ -191,7 +205,7 @@ def run_case(case):
                 exp = heads_ref[i][2][n_]
                 got = delta[("head", i, n_)]
                 if got is None:
-                    bad = f"head {i} param {n_}: .grad not created"
+                    bad = f"head {i} param {n_}: .grad not created (containers={cont})"
                     break
                 sc = max(1.0, float(np.abs(exp).max()))
                 e = float(np.abs(got - exp).max()) / (tol * sc * 8)
@@ -214,7 +228,7 @@ def run_case(case):
         if not bad and not usesU and delta[("U",)] is not None and ("U",) not in pre:
             bad = "unused pooled param U received a .grad"
         if bad:
-            viol.append(dict(sig="task-param-gradient", cls=f"task-param:{tmode}", msg=f"{where} | {bad}"[:800]))
+            viol.append(dict(sig=f"task-param-gradient:containers={cont}", cls=f"task-param:{tmode}:{cont}", msg=f"{where} | {bad}"[:800]))
             continue
         # ---- shared parameters
         Jref = ref.shared_jacobian(eff_shared)[list(perm)]  # row k belongs to losses[k]
@@ -235,7 +249,7 @@ def run_case(case):
             outcomes.add("noshared")
             continue
         if any(delta[("leaf", l)] is None for l in eff_shared):
-            viol.append(dict(sig="shared-grad-not-created", msg=where[:700]))
+            viol.append(dict(sig=f"shared-grad-not-created:containers={cont}", msg=where[:700]))
             continue
         if len(agg.calls) != 1:
             viol.append(dict(sig="aggregator-call-count", msg=f"{len(agg.calls)} | {where}"[:700]))
@@ -258,7 +272,7 @@ def run_case(case):
                 best, found = max(e1, e2), order
         maxima["jacobian+slices"] = max(maxima.get("jacobian+slices", 0.0), min(best, 1e9))
         if best > 1:
-            viol.append(dict(sig="shared-jacobian-or-slices-mismatch", cls=f"shared:{aggname}:{smode}",
+            viol.append(dict(sig="shared-jacobian-or-slices-mismatch", cls=f"shared:{aggname}:{smode}:{cont}",
                              msg=f"{where} | err/tol={best:.3g} M={np.round(Mx, 6).tolist()} Jref={np.round(Jref, 6).tolist()}"[:900]))
             continue
         if aggname == "const":
